@@ -587,3 +587,46 @@ pub fn enumerate(size: usize, depth: usize, memo: &mut std::collections::HashMap
     memo.insert((size, depth), rc.clone());
     rc
 }
+
+
+/// an INERT term (never evaluated: it sits under a delay/lambda of the result) over every term former,
+/// mentioning the `scope` enclosing variables at various binder depths
+pub fn inert_body(r: &mut Prng, scope: usize, depth: usize) -> T {
+    if depth == 0 || r.chance(1, 4) {
+        return if scope > 0 && r.chance(4, 5) { var(1 + r.below(scope)) } else { con(Constant::Integer(BigInt::from(r.range(0, 9)))) };
+    }
+    match r.below(8) {
+        0 => lam(inert_body(r, scope + 1, depth - 1)),
+        1 => delay(inert_body(r, scope, depth - 1)),
+        2 => force(inert_body(r, scope, depth - 1)),
+        3 => app(inert_body(r, scope, depth - 1), inert_body(r, scope, depth - 1)),
+        4 | 5 => {
+            let n = 1 + r.below(3);
+            Term::Constr { tag: r.below(3), fields: (0..n).map(|_| inert_body(r, scope, depth - 1)).collect() }
+        }
+        6 => {
+            let n = r.below(3);
+            Term::Case { constr: Rc::new(inert_body(r, scope, depth - 1)), branches: (0..n).map(|_| inert_body(r, scope, depth - 1)).collect() }
+        }
+        _ => lam(lam(inert_body(r, scope + 2, depth - 1))),
+    }
+}
+
+/// a program whose RESULT is a closure capturing `n` distinct values: `[(lam x1 [(lam x2 … (delay|lam BODY)) c2]) c1]`
+pub fn closure_result(r: &mut Prng) -> T {
+    let n = 2 + r.below(3);
+    let d1 = 2 + r.below(3);
+    let d2 = 2 + r.below(3);
+    let body = inert_body(r, n + 1, d1);
+    let mut t = if r.chance(1, 2) { delay(inert_body(r, n, d2)) } else { lam(body) };
+    // innermost binding is x_n; wrap from the inside out
+    for i in (0..n).rev() {
+        let c = match r.below(3) {
+            0 => con(Constant::Integer(BigInt::from(100 + i as i64))),
+            1 => con(Constant::ByteString(vec![i as u8])),
+            _ => delay(con(Constant::Integer(BigInt::from(200 + i as i64)))),
+        };
+        t = app(lam(t), c);
+    }
+    t
+}
